@@ -48,6 +48,15 @@ def brokenOf (toks : List String) : Option String :=
   | some "proof" | some "image" | some "sig" => some "proof"
   | _ => none
 
+/-- the outputs named by `more=` when the named inputs (with `in=`) are pairwise distinct and exist -/
+def extraOuts (s : St) (toks : List String) : List Out :=
+  match arg? toks "more" with
+  | none => []
+  | some m =>
+    if repeatsInput toks then [] else
+    let outs := s.wallets.getD (argI toks "w" 0).toNat []
+    ((m.splitOn ",").filterMap String.toNat?).filterMap (fun j => outs[j]?)
+
 def step (s : Option St) (toks : List String) : Option St × String :=
   match toks with
   | "case" :: _ => (none, "ok")
@@ -80,9 +89,15 @@ def step (s : Option St) (toks : List String) : Option St × String :=
         -- unit: the semantic check demands an input of at least one unit and a whole number of units
         let gas := if argI toks "feeu" (-1) ≥ 0 then argI toks "feeu" 0 / 10 else calGas amount
         let input := amount + feeOfGas gas
-        let broken := if argI toks "rem" 0 != 0 || input < 1 then some "money" else none
-        let (s', a) := submit s { kind := .ain, from_ := (argI toks "from" 0).toNat, to := (argI toks "w" 0).toNat, amount := amount,
-                                  nonce := (argI toks "nonce" 0).toNat, gas := gas, broken := broken }
+        -- the fee must be a whole number of gas prices (10 units): semantic check, after the input's unit test
+        let broken := if argI toks "rem" 0 != 0 || input < 1 then some "money"
+          else if argI toks "feeu" (-1) ≥ 0 && argI toks "feeu" 0 % 10 != 0 then some "other:fee_illegal" else none
+        let t : TxRec := { kind := .ain, from_ := (argI toks "from" 0).toNat, to := (argI toks "w" 0).toNat, amount := amount,
+                           nonce := (argI toks "nonce" 0).toNat, gas := gas, broken := broken }
+        -- fee adequacy is the LAST state check (after nonce and funds); a refused transaction leaves the speculative state alone
+        if broken.isNone && gas < calGas amount && (admitTx s s.txs.length t).1 == "ok" then
+          (some { s with txs := s.txs ++ [t] }, s!"id={s.txs.length} admit=fee-low") else
+        let (s', a) := submit s t
         (some s', a)
       | "uu" | "ua" =>
         let w := (argI toks "w" 0).toNat
@@ -94,9 +109,18 @@ def step (s : Option St) (toks : List String) : Option St × String :=
         match (if moreOk then (s.wallets.getD w [])[k]? else none) with
         | none => (some s, "noinput")
         | some o =>
-          let declared := match argInt? toks "claim" with | some c => c | none => o.amount
+          -- further inputs named by `more=` (distinct outputs of the wallet: a repeated one is refused by the semantic check,
+          -- `brokenOf`): their amounts add to what the transaction spends; every one of their key images is checked
+          let extra := extraOuts s toks
+          let declared := match argInt? toks "claim" with | some c => c | none => o.amount + (extra.map (·.amount)).sum
           let amount := argI toks "amount" 1
           let ufee := feeOfGas utxoGas
+          let submit := fun (s : St) (t : TxRec) =>
+            let clash := extra.any (fun e => s.spentImgs.contains e.id || s.poolImgs.contains e.id)
+            -- a state verdict, not a property of the transaction: it is registered, refused now, and may be valid in another state
+            if t.broken.isNone && clash then ({ s with txs := s.txs ++ [t] }, s!"id={s.txs.length} admit=double-spend") else
+            let (s', a) := submit s t
+            if (a.splitOn " admit=ok").length == 2 then ({ s' with poolImgs := s'.poolImgs ++ extra.map (·.id) }, a) else (s', a)
           -- an account-side amount of 2^64 units or more cannot be turned into a commitment scalar: the builder refuses
           if op == "ua" && argI toks "hi" (-1) ≥ 64 then (some s, "build=money") else
           let amount := if op == "ua" && argI toks "all" 0 == 1 then
@@ -105,11 +129,21 @@ def step (s : Option St) (toks : List String) : Option St × String :=
             else amount
           if op == "ua" && argI toks "all" 0 == 1 && amount ≤ 0 then (some s, "build=funds") else
           if op == "uu" then
+            -- feeu=<units>: an explicit fee: a whole number of gas prices (semantic check), at least the confidential gas (last state check)
+            let feeu := argI toks "feeu" (-1)
+            let ufee := if feeu ≥ 0 then feeu else ufee
             let change := declared - amount - ufee
             if change < 0 then (some s, "build=funds") else
             let to := (argI toks "to" 1).toNat
             let outs := (to, amount) :: (if change > 0 then [(w, change)] else [])
-            let (s', a) := submit s { kind := .uin, spends := o.id, outs := outs, gas := utxoGas, broken := brokenOf toks }
+            let broken := match brokenOf toks with
+              | some c => some c
+              | none => if feeu ≥ 0 && feeu % 10 != 0 then some "other:fee_illegal" else none
+            let t : TxRec := { kind := .uin, spends := o.id, outs := outs, gas := ufee / 10, broken := broken }
+            if broken.isNone && ufee / 10 < utxoGas && (admitTx s s.txs.length t).1 == "ok" &&
+                !(extra.any (fun e => s.spentImgs.contains e.id || s.poolImgs.contains e.id)) then
+              (some { s with txs := s.txs ++ [t] }, s!"id={s.txs.length} admit=fee-low") else
+            let (s', a) := submit s t
             (some s', a)
           else
             let afee := feeOfGas (calGas amount)
@@ -184,6 +218,9 @@ structure DR where
   /-- account→confidential transactions whose fee does not cover the value-proportional gas of what they bring in as `CheckStoreState`
   computes it inside a block (the amount in wei, rounded UP to the fee step): a block holding one is execution-invalid -/
   feelow : List Nat := []
+  /-- confidential transactions with several inputs: (transaction id, ids of the outputs spent besides the first).  Model.Ledger's
+  transaction record carries ONE spent output; the further key images are checked, pooled, committed and marked here -/
+  multi : List (Nat × List Nat) := []
   /-- real genesis: number of candidates (award payees: their coinbases, then their supporters: `x.yw`) -/
   sys : Option Nat := none
 
@@ -305,6 +342,11 @@ def contractOp (d : DR) (toks : List String) : Option (DR × String) :=
     some ({ d with s := s' }, a)
   | "replay" :: _ =>
     let id := argI toks "id" 0
+    let es := match d.multi.find? (fun e => id ≥ 0 && e.1 == id.toNat) with | some (_, es) => es | none => []
+    let firstFree := match d.s.txs[id.toNat]? with
+      | some t => t.broken.isNone && !d.s.spentImgs.contains t.spends && !d.s.poolImgs.contains t.spends
+      | none => false
+    if firstFree && es.any (fun e => d.s.spentImgs.contains e || d.s.poolImgs.contains e) then some (d, "admit=double-spend") else
     match d.dests.find? (fun e => id ≥ 0 && e.1 == id.toNat) with
     | some (_, j, gas, v, _) =>
       if d.dead.contains j && gas != calGas v then some (d, "admit=other:illegal_gasLimit_or_gasPrice") else none
@@ -319,6 +361,10 @@ def contractOp (d : DR) (toks : List String) : Option (DR × String) :=
 /-- after a committed block: book the contract movements, remember where the block started -/
 def commitX (d : DR) (before : St) (ids : List Nat) (sts : List Bool) (s' : St) : DR :=
   let x0 := { d.x with rx := d.x.rx.map (fun _ => 0), killed := [] }
+  let extras := (ids.zipIdx.filter (fun (_, i) => sts.getD i true)).flatMap (fun (id, _) =>
+    match d.multi.find? (fun e => e.1 == id) with | some (_, es) => es | none => [])
+  let s' := extras.foldl (fun acc e => { acc with wallets := markSpent acc.wallets e,
+                                                  spentImgs := if acc.spentImgs.contains e then acc.spentImgs else acc.spentImgs ++ [e] }) s'
   let (s'', x') := bookEffs d.effs ids sts (s', x0)
   -- a SELFDESTRUCT that the dry run saw succeed (it has movements booked) and that this block executed removes its instance
   let killed := (ids.zipIdx).filterMap (fun (id, i) =>
@@ -335,12 +381,30 @@ def stepR (d : Option DR) (toks : List String) : Option DR × String :=
   | some d, "forceblock" :: _ =>
     let ids := ((arg? toks "ids").getD "").splitOn "," |>.filterMap String.toNat? |>.filter (· < d.s.txs.length)
     if ids.any (fun i => d.feelow.contains i) then (some d, "propose=panic") else
+    -- every key image of every transaction of the block (the further inputs of multi-input spends included) must be neither
+    -- committed nor seen earlier in the block
+    let imgsOfTx := fun (i : Nat) => match d.s.txs[i]? with
+      | some t => (if t.kind == .uin then [t.spends] else []) ++ (match d.multi.find? (fun e => e.1 == i) with | some (_, es) => es | none => [])
+      | none => []
+    let clash := (ids.foldl (fun (acc : Bool × List Nat) i =>
+      let im := imgsOfTx i
+      (acc.1 || im.any (fun x => acc.2.contains x || d.s.spentImgs.contains x) || im.eraseDups.length < im.length, acc.2 ++ im)) (false, [])).1
+    if clash && ids.any (fun i => (d.multi.find? (fun e => e.1 == i)).isSome) then (some d, "propose=panic") else
     let (s', r, sts) := forceBlockR d.s ids
     if r == "ok" then
       -- the stand-in mempool rechecks what is still pending against the fresh speculative state (what mempool.Update does
       -- after a foreign block: C15): invalidated transactions are dropped
-      let s0 := { s' with pending := [], poolImgs := [] }
-      let s'' := s'.pending.foldl (fun acc id => match acc.txs[id]? with | some t => (checkState acc id t).2 | none => acc) s0
+      let s0 := { s' with pending := [], poolImgs := [], spentImgs := s'.spentImgs ++ ((ids.zipIdx.filter (fun (_, i) => sts.getD i true)).flatMap (fun (id, _) =>
+        match d.multi.find? (fun e => e.1 == id) with | some (_, es) => es | none => [])) }
+      let spentNow := s'.spentImgs ++ ((ids.zipIdx.filter (fun (_, i) => sts.getD i true)).flatMap (fun (id, _) =>
+        match d.multi.find? (fun e => e.1 == id) with | some (_, es) => es | none => []))
+      let s'' := s'.pending.foldl (fun acc id => match acc.txs[id]? with
+        | some t =>
+          let es := match d.multi.find? (fun e => e.1 == id) with | some (_, es) => es | none => []
+          if es.any (fun e => spentNow.contains e || acc.poolImgs.contains e) then acc else
+          let r := (checkState acc id t)
+          if r.1 == "ok" then { r.2 with poolImgs := r.2.poolImgs ++ es } else r.2
+        | none => acc) s0
       (some (commitX { d with sts := d.sts ++ [sts] } d.s ids sts (bookCalls d.vcalls ids sts s'')), s!"h={s'.height} txs={",".intercalate (ids.map toString)}")
     else (some { d with s := s' }, r)
   | some d, "receipts" :: _ =>
@@ -383,8 +447,16 @@ def stepR (d : Option DR) (toks : List String) : Option DR × String :=
           let up : Int := if argI toks "rem" 0 > 0 then 1 else 0
           let needed : Int := if amount + up > 0 then calGas (amount + up) else 0
           if needed > gas && (a.splitOn " admit=").length == 2 then d0.feelow ++ [s'.txs.length - 1] else d0.feelow
+        | "uu" :: _ =>
+          -- a confidential spend whose explicit fee does not cover the confidential gas: execution-invalid inside a block
+          if argI toks "feeu" (-1) ≥ 0 && argI toks "feeu" 0 / 10 < utxoGas && (a.splitOn " admit=").length == 2 then d0.feelow ++ [s'.txs.length - 1] else d0.feelow
         | _ => d0.feelow
-      let d1 : DR := { d0 with s := s'', sts := alignSts ((d.map (·.sts)).getD []) s', vcalls := vc, feelow := fl }
+      let mu := match toks, d with
+        | "uu" :: _, some dd | "ua" :: _, some dd =>
+          let es := (extraOuts dd.s toks).map (·.id)
+          if !es.isEmpty && (a.splitOn " admit=").length == 2 then d0.multi ++ [(s'.txs.length - 1, es)] else d0.multi
+        | _, _ => d0.multi
+      let d1 : DR := { d0 with s := s'', sts := alignSts ((d.map (·.sts)).getD []) s', vcalls := vc, feelow := fl, multi := mu }
       let d2 := if s'.blocks.length > old then commitX d1 ((d.map (·.s)).getD s') (s'.blocks.getLast?.getD []) [] s'' else d1
       (some d2, a)
 
